@@ -118,6 +118,7 @@ func continuation(name string, img []byte, rng *rand.Rand) *core.Trace {
 		e.Close()
 	}()
 	tr.Events = e.Events()
+	tr.Writer = e.WriterEvents()
 	return tr
 }
 
